@@ -24,9 +24,23 @@ type timeRec struct {
 	NT null.Time `json:"nt"`
 }
 
+// one backing array and one ReadBuf used over and over (what ReadFile does with its block buffer): text the
+// parser keeps a reference to changes under its feet
+var (
+	reuseBacking = make([]byte, 256)
+	reuseBuf     = avro.NewReadBuf(nil)
+)
+
 func parseVia(via string, s string) (t time.Time, outcome string) {
 	w := avro.NewWriteBuf(nil)
 	switch via {
+	case "reused":
+		w.Varint(int64(len(s)))
+		w.Write([]byte(s))
+		n := copy(reuseBacking, w.Bytes())
+		reuseBuf.Reset(reuseBacking[:n])
+		outcome, _ = safeCall(func() error { return avrotime.StringCodec{}.Read(reuseBuf, unsafe.Pointer(&t)) })
+		return
 	case "codec":
 		w.Varint(int64(len(s)))
 		w.Write([]byte(s))
@@ -73,8 +87,11 @@ func emitTimeParse(c *driverCtx, class, s string) {
 	} else {
 		std, err = time.Parse(time.RFC3339, s)
 	}
-	for i, via := range []string{"codec", "record", "nulltime"} {
-		if i > 0 && !strings.HasPrefix(class, "grid") && c.rng.Intn(3) > 0 {
+	for i, via := range []string{"codec", "record", "nulltime", "reused"} {
+		if via == "reused" && len(s) > 200 {
+			continue
+		}
+		if i > 0 && via != "reused" && !strings.HasPrefix(class, "grid") && c.rng.Intn(3) > 0 {
 			continue
 		}
 		if len(s) == 0 && via != "codec" {
@@ -184,6 +201,26 @@ func driveC18(c *driverCtx) error {
 	for _, s := range []string{"2006-13-02T13:37:42Z", "2006-02-30T13:37:42Z", "2006-01-02T24:00:00Z", "2006-01-02T13:60:42Z", "2006-01-02T13:37:60Z", "2006-01-02t13:37:42Z",
 		"2006-00-10", "2006-01-00", "2023-02-29", "2024-02-29", "2024-02-29T00:00:00Z", "1900-02-29T00:00:00Z", "2000-02-29T00:00:00Z"} {
 		emitTimeParse(c, "invalid|range", s)
+	}
+	// sequences of equally long timestamps with changing zone offsets, decoded one after the other out of the same
+	// backing array (what ReadFile does from block to block): anything the parser remembers about the previous
+	// timestamp must not depend on bytes that have been overwritten since
+	seqOffs := []int{8 * 3600, -5 * 3600, 3600, 8 * 3600, -1800, 1800, 0, 5*3600 + 45*60, -(9*3600 + 30*60), 8 * 3600}
+	for round := 0; round < c.pick(6, 60); round++ {
+		k := []int{0, 3, 9, 6, 1, 12}[round%6]
+		for i := 0; i < 24; i++ {
+			off := seqOffs[c.rng.Intn(len(seqOffs))]
+			if off == 0 {
+				off = 7200 // keep the length (and so the position of the zone text) constant within a round
+			}
+			s := fmt.Sprintf("%04d-%02d-%02dT%02d:%02d:%02d%s%s", 1990+c.rng.Intn(60), 1+c.rng.Intn(12), 1+c.rng.Intn(28), c.rng.Intn(24), c.rng.Intn(60), c.rng.Intn(60),
+				fracString(c.rng.Intn(1000000000), k, '.'), zoneString(off))
+			std, err := time.Parse(time.RFC3339, s)
+			t, out := parseVia("reused", s)
+			c.rec.NewCase()
+			c.rec.Emit(fmt.Sprintf("C18|reused-sequence|frac%d", k), map[string]any{"op": "time_parse", "s": byteList([]byte(s)), "text": s, "out": out, "t": timeNode(t),
+				"std_ok": err == nil, "std": timeNode(std)})
+		}
 	}
 	_ = reflect.TypeOf
 	return nil
